@@ -25,6 +25,8 @@ static char *unhex(const char *h) { if (!strcmp(h, "-")) return strdup(""); size
 static char anc[64][64]; static int nanc;
 static void oracle_ancestors(void) {
     long p = getppid(); nanc = 0;
+    /* the parent's number as listed in the procfs instance mounted at /proc (in a PID namespace that kept the outer /proc, getppid() is a number of another numbering) */
+    { FILE *f = fopen("/proc/self/status", "r"); char line[512]; if (f) { while (fgets(line, sizeof line, f)) if (!strncmp(line, "PPid:\t", 6)) p = atol(line + 6); fclose(f); } }
     while (p > 0 && nanc < 64) {
         char path[64], line[512]; snprintf(path, sizeof path, "/proc/%ld/status", p); FILE *f = fopen(path, "r"); if (!f) break;
         long pp = -1; char name[64] = "";
@@ -40,14 +42,19 @@ int main(int argc, char **argv) {
     if (argc < 4) return 2;
     const char *listfile = argv[1]; int hide = atoi(argv[2]); char *selfname = unhex(argv[3]);
     strcpy(verif_cfgpath, "/nonexistent/verif/snoopy.ini");
+    /* hide == 3: the whole chain lives in a new PID namespace that kept the outer /proc (unshare --pid --fork without --mount-proc): the caller's
+       getppid() is a small number that denotes an unrelated process under /proc.  hide == 4: only the caller does (it is pid 1 there, parent 0). */
+    if (hide == 3 && unshare(CLONE_NEWPID)) { perror("unshare pid"); return 3; }
     for (int i = 4; i < argc; i++) {
         { char *n = unhex(argv[i]); prctl(PR_SET_NAME, n, 0, 0, 0); }   /* rename BEFORE forking: the child must never see the old name */
         pid_t p = fork();
         if (p > 0) { int st; while (waitpid(p, &st, 0) < 0 && errno == EINTR) {} _exit(WIFEXITED(st) ? WEXITSTATUS(st) : 99); }
     }
+    if (hide == 4) { if (unshare(CLONE_NEWPID)) { perror("unshare pid"); return 3; } pid_t p = fork(); if (p > 0) { int st; while (waitpid(p, &st, 0) < 0 && errno == EINTR) {} _exit(WIFEXITED(st) ? WEXITSTATUS(st) : 99); } }
     if (*selfname) prctl(PR_SET_NAME, selfname, 0, 0, 0);
     oracle_ancestors();
-    if (hide) { if (unshare(CLONE_NEWNS) || mount("none", "/", NULL, MS_REC | MS_PRIVATE, NULL) || mount("tmpfs", "/proc", "tmpfs", 0, NULL)) { perror("hide /proc"); return 3; } }
+    if (hide >= 3) hide = 0;
+    if (hide == 1 || hide == 2) { if (unshare(CLONE_NEWNS) || mount("none", "/", NULL, MS_REC | MS_PRIVATE, NULL) || mount("tmpfs", "/proc", "tmpfs", 0, NULL)) { perror("hide /proc"); return 3; } }
     /* hide == 2: a FABRICATED /proc (tmpfs): the ancestry above the real parent is what VERIF_FAKEPROC says - "<namehex>:<pid>,..." from the
        parent upwards (the first pid is replaced by the real getppid()); process ids of up to 7 digits and 15-byte names give stat lines
        longer than any a process of this sandbox can have */
@@ -55,6 +62,10 @@ int main(int argc, char **argv) {
         const char *spec = getenv("VERIF_FAKEPROC"); if (!spec) return 3; char *d = strdup(spec), *sv = NULL; long pids[64]; char *names[64]; int n = 0;
         for (char *t = strtok_r(d, ",", &sv); t && n < 63; t = strtok_r(NULL, ",", &sv)) { char *c = strchr(t, ':'); if (!c) return 3; *c = 0; names[n] = unhex(*t ? t : "-"); pids[n] = atol(c + 1); n++; }
         if (n == 0) return 3; pids[0] = getppid(); nanc = 0;
+        /* the caller's own entry, reachable as /proc/self and as /proc/<pid> */
+        { char dp[64], fp[96], me[32]; snprintf(me, sizeof me, "%d", (int)getpid()); snprintf(dp, sizeof dp, "/proc/%s", me); mkdir(dp, 0555); if (symlink(me, "/proc/self")) { perror("/proc/self"); return 3; }
+          snprintf(fp, sizeof fp, "%s/stat", dp); FILE *sf = fopen(fp, "w"); if (!sf) { perror(fp); return 3; }
+          fprintf(sf, "%s (%s) R %ld %s %s 34816 %s 4194560 1234 0 0 0 12 3 0 0 20 0 1 0 123456789 12345678 1234 18446744073709551615 1 1 0 0 0 0 0 0 0 0 0 0 17 3 0 0 0 0 0\n", me, selfname, pids[0], me, me, me); fclose(sf); }
         for (int i = 0; i < n; i++) { char dp[64], fp[96]; snprintf(dp, sizeof dp, "/proc/%ld", pids[i]); mkdir(dp, 0555); snprintf(fp, sizeof fp, "%s/stat", dp); FILE *sf = fopen(fp, "w"); if (!sf) { perror(fp); return 3; }
             long pp = i + 1 < n ? pids[i + 1] : 0;
             fprintf(sf, "%ld (%s) S %ld %ld %ld 34816 %ld 4194560 1234 0 0 0 12 3 0 0 20 0 1 0 123456789 12345678 1234 18446744073709551615 1 1 0 0 0 0 0 0 0 0 0 0 17 3 0 0 0 0 0\n", pids[i], names[i], pp, pids[i], pids[i], pids[i]);
